@@ -4,7 +4,44 @@ NOTES = ("Technique: machine-checked proof in Coq 8.16 over hand-written executa
          "Properties_<ID>.v, runs extracted model and implementation on the same generated cases, searches for a failing input "
          "when either breaks.")
 NOT_APPLICABLE = {}
+VF_NOTE = ("Trusted: Coq kernel, extraction, harness/vf.c (page table and reference PCM obtained with libogg + the packet-level API), libogg. "
+           "The byte-level page search/bisection is abstracted to its result on the page table (validated by the tie on every run, not proved). "
+           "Print Assumptions: closed under the global context.")
 CHECKS = {
+ "C07": {
+  "category": "proof",
+  "text": "VFile.v models vorbisfile's position bookkeeping (link table, fetch/process, reads, raw/page/sample seeks) on the page table, with the decoder "
+          "automaton of Blocking.v underneath. Proved: each read's consuming step advances the position by exactly the count returned and touches nothing else. "
+          "The full refinement (position = next sample of the linear decode after ANY history) is not yet a theorem: it is checked per run by replaying random "
+          "seek/read histories on chained files against the model (return code, positions, state, link) and by comparing every read bit for bit with an "
+          "independent packet-level decode at the reported position.",
+  "note": VF_NOTE,
+  "technique": "Coq model + partial proof (consuming step); step-by-step correspondence of extracted model vs lib/vorbisfile.c; bit-exact position oracle",
+ },
+ "C08": {
+  "category": "proof",
+  "text": "Proved on VFile.v: out-of-range arguments are rejected with the state untouched; the page a page-granularity seek lands on is the LAST page of the "
+          "link (in the search range) whose granule position is set and below the target; link selection. Exact landing for EVERY target 0..L of small chained "
+          "files (after random prior ops), time seeks, and end-of-file behaviour are checked on each run against the model and the property itself.",
+  "note": VF_NOTE,
+  "technique": "Coq proof (landing page maximality, argument validation) + exhaustive-target correspondence vs lib/vorbisfile.c",
+ },
+ "C09": {
+  "category": "proof",
+  "text": "Proved on VFile.v: the link split loses no page, one link per BOS-delimited segment, lengths/initial offsets non-negative, total = sum of links. "
+          "Per run: 1..12-link files (zero-sample, single-page links, differing rates/channels) - link table compared with an independent decode and the model; "
+          "the linear read must deliver every link completely, in order, bit-identical, without error returns.",
+  "note": VF_NOTE,
+  "technique": "Coq proof (link table structure) + correspondence of link table and linear read vs independent packet-level decode",
+ },
+ "C10": {
+  "category": "proof",
+  "text": "Proved: request lengths do not matter (two reads that fit equal one read of the sum: counts, position, decoder state, queue, cursor). The model is a "
+          "function of the page table only; that byte delivery does not change the page table is libogg's (outside the repo) and is exercised: each file is decoded "
+          "through seekable vorbisfile, streaming vorbisfile and the packet API with read callbacks capped at 1..65535 bytes; PCM bit-identical, no hole/error.",
+  "note": VF_NOTE,
+  "technique": "Coq proof (read composition) + three-path differential decode under short-read schedules",
+ },
  "C17": {
   "text": "Theorems over exact dyadic sample values (Pcm.v): clip after the x86-64 conversion is the ideal saturating round-to-nearest-even for every "
           "finite float and both scales; every (word, signedness, byte order) encodes that value; frames are whole, frame-major, never exceed the "
